@@ -222,7 +222,7 @@ func parseContractComments(cs *ContractSet, fset *token.FileSet, pkgPath string,
 							}
 						}
 					}
-					if kind != "invariant" && kind != "decreases" {
+					if kind != "invariant" && kind != "decreases" && kind != "body" {
 						return fmt.Errorf("%s:%d: bad loop clause kind %s", fname, line, kind)
 					}
 					r := strings.TrimSpace(rest)
